@@ -414,6 +414,13 @@ pub fn c10(ctx: &mut Ctx) {
         if log_d <= 64 {
             let log_c = rng.range(1, (log_d as u64).min(16).max(1));
             let (lt, lc) = if log_d as u64 > log_c { (log_d as u64 - log_c, log_c) } else { (0, log_d as u64) };
+            let dr = monitor::guarded_val(1_000_000, || StarkDomains::new(Felt::from(lt), Felt::from(lc)).eval_domain_size);
+            ctx.stats.evaluations += 1;
+            if !dr.outcome.is_accept() {
+                let rep = replay_envelope("C10", scenario, &ctx.variant, json!({"call": "points", "indices": [0], "log_domain": log_d, "log_cosets": lc, "oracle": "points"}));
+                ctx.violation(&format!("C10|points-crash|{}", dr.outcome.class()), &format!("StarkDomains::new({lt}, {lc}) for the domain 2^{log_d}: {}", dr.outcome.describe()), rep);
+                continue;
+            }
             let dom = StarkDomains::new(Felt::from(lt), Felt::from(lc));
             // the drawn queries, plus all indices for small domains, plus adjacent runs
             let mut idx: Vec<u64> = want.clone();
@@ -799,6 +806,14 @@ pub fn replay(rep: &Value) -> Result<(bool, String), String> {
             let idx: Vec<u64> = serde_json::from_value(rep["indices"].clone()).map_err(|e| e.to_string())?;
             let log_d = rep["log_domain"].as_u64().ok_or("log_domain")? as u32;
             let lc = rep["log_cosets"].as_u64().ok_or("log_cosets")?;
+            let r = monitor::guarded_val(10_000_000, || {
+                let dom = StarkDomains::new(Felt::from(log_d as u64 - lc), Felt::from(lc));
+                let qf: Vec<Felt> = idx.iter().map(|x| Felt::from(*x)).collect();
+                swiftness_stark::queries::queries_to_points(&qf, &dom)
+            });
+            if !r.outcome.is_accept() {
+                return Ok((true, r.outcome.describe()));
+            }
             let dom = StarkDomains::new(Felt::from(log_d as u64 - lc), Felt::from(lc));
             let qf: Vec<Felt> = idx.iter().map(|x| Felt::from(*x)).collect();
             let pts = swiftness_stark::queries::queries_to_points(&qf, &dom);
